@@ -41,6 +41,9 @@ checks = {
  "C14": dict(level="fault_enumeration", ref="DESIGN.md 3 C14",
    text="The cut offset of a fixed multi-frame stream is enumerated byte by byte from the run ordinal (handshake, length prefixes, bodies, frame boundaries) together with EOF/RST, immediate/late write error and retry settings, each visit under a fresh seeded schedule; refused dials, peer restarts, resets, bad frames from a fake peer and Tell to an unreachable peer are sampled; subsequence / dead-letter / bounded-recovery / zero-simulated-time-Tell oracles.",
    technique="deterministic simulation: in-memory transport with enumerated cut offsets and sampled connection faults, subsequence and bounded-liveness oracles"),
+ "C15": dict(level="exploration", ref="DESIGN.md 3 C15",
+   text="A differential oracle: every ActorRef-taking operation (enumerated from the run ordinal, with and without a user Codec) is executed by the same actor against an identical local and remote target inside one simulated run over the in-memory network, and the multisets of observable outcomes must be equal; each visit uses a fresh seeded schedule and mixed read chunking.",
+   technique="deterministic simulation: differential local-vs-remote execution over the in-memory transport"),
  "C19": dict(level="exploration", ref="DESIGN.md 3 C19",
    text="Concurrent Subscribe/Unsubscribe/UnsubscribeAll/Publish histories with subscriber kills and restarts, stamped with the simulator's global event sequence number and checked for linearizability against a set model with porcupine; plus duplicate, order, post-termination and stale-table-entry oracles.",
    technique="deterministic simulation: seeded scheduler, recorded history checked with porcupine against a sequential model"),
